@@ -43,10 +43,12 @@ Theorem multifile_other_text_kept : forall t s m k,
 Proof. exact other_text_kept. Qed.
 Print Assumptions multifile_other_text_kept.
 
-(* ... and the text's own clauses are present exactly once, however often the text was loaded before. *)
+(* ... and the text's own clauses are present exactly once, however often the text was loaded before
+   (contribution = all clauses of the predicate in the text if it is discontiguous, else its last run). *)
 Theorem own_clauses_not_duplicated : forall t s m k, In k (text_keys s) ->
   extensible (flags_or (flags_of_key (db_of m) k) (decl_flags k s)) = true ->
-  filter (mine t) (clauses_of_key (db_of (load t s m)) k) = tag t (clauses_for k s).
+  filter (mine t) (clauses_of_key (db_of (load t s m)) k)
+  = tag t (contribution (flags_or (flags_of_key (db_of m) k) (decl_flags k s)) k s).
 Proof. exact own_clauses_exact. Qed.
 Print Assumptions own_clauses_not_duplicated.
 
